@@ -9,13 +9,21 @@ import model_sweep
 from vlib import ToolError, log
 
 # Layer M runs attached to a property: (family, N, L, stride quick, stride thorough, use_shortcuts, invariants)
+# family "gen:<generator family>": Layer M on the inputs of a generator family of the harness (MC_Sweep Family "file"); the
+# two numbers are then the stride through an enumerated family (en:...) or the number of operand pairs (quick, thorough)
+ALLM = ["M_ResultRegion", "M_Nesting", "M_Provenance", "M_EventBound", "M_NoPanic", "M_Subdivision", "M_Classification"]
 MODEL_PLAN = {
-    "C01": [("tri", 2, 840, 24, 1, True, ["M_ResultRegion", "M_EventBound", "M_NoPanic"]), ("pair", 2, 840, 4000, 150, True, ["M_ResultRegion", "M_NoPanic"])],
+    "C01": [("tri", 2, 840, 24, 1, True, ["M_ResultRegion", "M_EventBound", "M_NoPanic"]), ("pair", 2, 840, 4000, 150, True, ["M_ResultRegion", "M_NoPanic"]),
+            ("gen:en:3x2:4:0_0:s", 2, 1, 128, 8, True, ALLM), ("gen:hang", 2, 1, 25, 400, True, ALLM)],
     "C02": [("nest2", 2, 840, 6, 1, True, ["M_Nesting", "M_ResultRegion", "M_NoPanic"]), ("nest", 3, 1, 60, 4, True, ["M_Nesting", "M_NoPanic"]),
-            ("star3", 2, 840, 30, 2, True, ["M_Nesting", "M_ResultRegion", "M_Provenance", "M_NoPanic"])],   # three rings through one least vertex, also as holes
-    "C03": [("quad", 2, 840, 120, 8, True, ["M_EventBound", "M_NoPanic"]), ("pairB", 2, 840, 3000, 300, True, ["M_EventBound", "M_NoPanic"])],
-    "C04": [("quad", 2, 840, 150, 12, True, ["M_Provenance", "M_NoPanic"]), ("isl2", 2, 840, 16, 2, True, ["M_Provenance", "M_Nesting"])],   # islands inside a hole: ring orientation at depth 2
-    "C09": [("tri", 2, 840, 40, 3, False, ["M_ResultRegion", "M_NoPanic"]), ("nest2", 2, 840, 12, 2, False, ["M_ResultRegion", "M_Nesting"])],
+            ("star3", 2, 840, 30, 2, True, ["M_Nesting", "M_ResultRegion", "M_Provenance", "M_NoPanic"]),   # three rings through one least vertex, also as holes
+            ("gen:pinch", 2, 1, 20, 300, True, ALLM), ("gen:onion", 2, 1, 15, 200, True, ALLM), ("gen:lamina", 2, 1, 0, 60, True, ALLM)],
+    "C03": [("quad", 2, 840, 120, 8, True, ["M_EventBound", "M_NoPanic"]), ("pairB", 2, 840, 3000, 300, True, ["M_EventBound", "M_NoPanic"]),
+            ("gen:teeth", 2, 1, 25, 400, True, ALLM)],
+    "C04": [("quad", 2, 840, 150, 12, True, ["M_Provenance", "M_NoPanic"]), ("isl2", 2, 840, 16, 2, True, ["M_Provenance", "M_Nesting"]),   # islands inside a hole: ring orientation at depth 2
+            ("gen:cxsplit", 2, 1, 30, 400, True, ALLM)],
+    "C09": [("tri", 2, 840, 40, 3, False, ["M_ResultRegion", "M_NoPanic"]), ("nest2", 2, 840, 12, 2, False, ["M_ResultRegion", "M_Nesting"]),
+            ("gen:hang", 2, 1, 30, 400, False, ["M_ResultRegion", "M_Nesting", "M_NoPanic"])],
 }
 
 PROPS = ["C01", "C02", "C03", "C04", "C05", "C06", "C07", "C08", "C09", "C10", "C11", "C12"]
@@ -65,19 +73,21 @@ def plan(prop, tier):
         "C01": [("region", {"C01"}, "any", "release",
                  [corpus("big27.ndjson"), corpus("fixed_findings.ndjson"), corpus("hand.ndjson"),
                   ops("single", ALLF, 480 if q else 4000, 3 if q else 4, 120 if q else 160),
-                  ops("single", "lat,frames,lat,fan,tfan", 600 if q else 6000, 3, 120),   # general slopes, boxes overlapping only a little, thinnest wedges
+                  ops("single", "lat,frames,lat,fan,tfan,hang,cxsplit,hang", 800 if q else 8000, 3, 120),   # general slopes, boxes overlapping only a little, thinnest wedges
                   ops("single", "pinch,holefill,onion,teeth,pinch,lamina", 600 if q else 6000, 3, 120),   # many rings through one vertex (also as a T-touch on the edge below), nested operands, interlocking operands
                   ("fixedops", "witness", "latraw", 2000 if q else 12000, 3, 120, 20260926),   # general position, inexact crossings: judged at witness points (C01_Witness); fixed set, see finding N8
                   ops("single", "bigfan23,bigsliver25,bigfan25,bigsliver20", 200 if q else 2000, 3, 120),   # beyond 2^12 (differences <= 2^25, see DESIGN N5): touch-only operands, arithmetic-free laws
                   ops("fwit", ROTF, 300 if q else 6000, 3 if q else 4, 120 if q else 200), ops("fwit32", ROTF, 150 if q else 3000, 3, 120),   # float operands (irrational affine images), witness points, exact arithmetic on the floats
                   enum("fwit", "rot-" + EN_RECTK, 16 if q else 1), enum("fwit", "rot-" + EN_MIX, 2 if q else 1),
+                  ("fixedops", "fwit", "fstar", 600 if q else 8000, 3, 120, 20260928), ("fixedops", "fwit32", "fstar", 300 if q else 4000, 3, 120, 20260929),   # star-shaped float polygons in general position (every meeting point a proper crossing at an irrational place); a FIXED batch like the witness batch
+
                   enum("single", EN_RECT, 8 if q else 1), enum("single", EN_TRI, 128 if q else 4), enum("single", EN_SHIFT, 8 if q else 1), enum("single", EN_MIX, 1),   # enumerated: every pair of subsets of a small triangulated lattice
                   tri(2, 840, 3 if q else 1, 0)] + ([] if q else [ops("single", EXACT, 600, 6, 260), enum("single", EN_RECTK, 1), enum("single", EN_BOTH, 4), enum("single", EN_HOLE, 32)]))],
         "C02": [("nesting", {"C02"}, "any", "release",
                  [corpus("fixed_findings.ndjson"), corpus("hand.ndjson"),
                   ops("single", SHARED, 600 if q else 5000, 3 if q else 4, 120 if q else 160),
                   ops("single", "cxabut,cxsub,rect,cxabut", 400 if q else 4000, 5, 220),   # larger regions: holes above shared segments
-                  ops("single", "lamina,onion,lamina,holefill,pinch", 500 if q else 5000, 3, 200),   # nesting: holes above holes, islands stacked in one hole, polygons starting in between
+                  ops("single", "lamina,onion,lamina,holefill,pinch,cxsplit", 600 if q else 6000, 3, 200),   # nesting: holes above holes, islands stacked in one hole, polygons starting in between
                   ops("fwit", "rot-cxabut,rot-cxsub,rot-cx,rot-rect", 300 if q else 5000, 4, 200), enum("fwit", "rot-en:3x3:4:0_0:k", 1024 if q else 32),   # nesting on float operands (holes, islands), judged at witness points
                   enum("single", EN_HOLE, 512 if q else 16), enum("single", EN_RECT, 8 if q else 1),   # enumerated cell sets of a 3x3 grid (holes, diagonal neighbours) and of a 3x2 grid (exhaustive in thorough)
                   tri(2, 840, 3 if q else 1, 1)] + ([] if q else [ops("single", "cx,rect", 600, 6, 260), enum("single", EN_TRI, 8)]))],
@@ -89,17 +99,18 @@ def plan(prop, tier):
                   ops("single", "tfan,fan,lat", 300 if q else 3000, 3, 120),
                   ops("single", "lamina,pinch,onion,lamina", 400 if q else 4000, 3, 200),   # ring orientation at nesting depth >= 2
                   ops("fwit", ROTF, 300 if q else 1500, 3 if q else 4, 120 if q else 200), ops("fwit32", ROTF, 150 if q else 750, 3, 120),   # float operands: provenance within tolerance, decided exactly on the floats (C04_F)
-                  enum("fwit", "rot-en:2x1:2:0_0:k", 256 if q else 16),
+                  enum("fwit", "rot-en:2x1:2:0_0:k", 256 if q else 16), ("fixedops", "fwit", "fstar", 400 if q else 6000, 3, 120, 20260930), ("fixedops", "fwit32", "fstar", 200 if q else 3000, 3, 120, 20260931),
                   enum("single", EN_BOTH, 128 if q else 4), enum("single", EN_SHIFT, 8 if q else 1)] + ([] if q else [enum("single", EN_RECTK, 1)]) + [
                   tri(2, 840, 3 if q else 1, 2)])],
         "C05": [("partition", {"C05"}, "any", "release",
-                 [ops("five", ALLF, 300 if q else 3000, 3 if q else 4, 100 if q else 140), ops("five", "pinch,holefill,onion,teeth,pinch,lamina", 400 if q else 4000, 3, 120),
+                 [ops("five", ALLF, 300 if q else 3000, 3 if q else 4, 100 if q else 140), ops("five", "pinch,holefill,onion,teeth,pinch,lamina,hang,cxsplit", 500 if q else 5000, 3, 120),
                   enum("five", EN_RECT, 16 if q else 1), enum("five", EN_TRI, 512 if q else 16)])],
         "C06": [("algebra", {"C06"}, "any", "release",
                  [ops("five", ALLF, 200 if q else 2000, 3 if q else 4, 100 if q else 140),
                   ops("five", "teeth", 3000 if q else 20000, 3, 100),     # interlocking operands: cheap sessions, at volume
                   ops("five", "cxshift,aff-cxshift,cxshift,lat", 600 if q else 6000, 3, 100),   # lattices shifted against each other: partial collinear overlaps on oblique lines, either operand starting first
                   ops("far", ALLF, 120 if q else 1000, 3, 100),
+                  ops("five", "cxsplit", 300 if q else 3000, 3, 100),     # bounding boxes that merely touch: tips on the interior of a long side, sides shared in part
                   enum("five", EN_RECTK, 16 if q else 1), enum("five", EN_SHIFT, 16 if q else 2), enum("five", EN_MIX, 2 if q else 1),
                   ops("deg", EXACT, 60 if q else 300)])],
         "C07": [("representation", {"C07"}, "any", "release",
@@ -110,7 +121,7 @@ def plan(prop, tier):
         "C08": [("transforms", {"C08"}, "any", "release",
                  [ops("xform", ALLF, 200 if q else 2000, 3 if q else 4, 100 if q else 140)])],
         "C09": [("farparts", {"C09"}, "any", "release",
-                 [ops("far", ALLF, 250 if q else 2500, 3 if q else 4, 100 if q else 140), ops("far", "lat,lat,frames", 300 if q else 3000, 3, 100)])],
+                 [ops("far", ALLF, 250 if q else 2500, 3 if q else 4, 100 if q else 140), ops("far", "lat,hang,frames,hang", 400 if q else 4000, 3, 100)])],     # hang: slivers reaching into the other operand's box from outside
         "C10": [("f32-agrees", {"C10"}, "any", "release",
                  [corpus("fan_f32.ndjson"), ops("f32", ALLF, 250 if q else 2500, 3 if q else 4, 100 if q else 140),
                   ops("f32", "fan", 250 if q else 2500, 3, 100), ops("f32", "bigfan23,bigfan24,bigfan20", 400 if q else 4000, 3, 100)]),
@@ -310,16 +321,22 @@ def run(prop, tier, seed, t0):
         all_laws |= lw
     for mi, (fam, n, l, sq, st, sc, invs) in enumerate(MODEL_PLAN.get(prop, [])):
         stride = sq if tier == "quick" else st
-        mwd = os.path.join(vlib.OUT, prop, "model-%d-%s" % (mi, fam))
-        r = model_sweep.model_and_replay(prop, mwd, family=fam, n=n, l=l, stride=stride,
-                                         offset=(seed * 7 + mi) % stride, use_shortcuts=sc, invs=invs + ["M_StatusLineSorted"], replay=sc, timeout=10000)
+        if stride == 0:
+            continue
+        mwd = os.path.join(vlib.OUT, prop, "model-%d-%s" % (mi, fam.replace(":", "_").replace("/", "_")))
+        if fam.startswith("gen:"):
+            r = model_sweep.model_and_replay(prop, mwd, generator=(fam[4:], stride, seed * 7 + mi), n=n, l=l, stride=1, offset=0,
+                                             use_shortcuts=sc, invs=invs + ["M_StatusLineSorted"], replay=sc, timeout=10000)
+        else:
+            r = model_sweep.model_and_replay(prop, mwd, family=fam, n=n, l=l, stride=stride,
+                                             offset=(seed * 7 + mi) % stride, use_shortcuts=sc, invs=invs + ["M_StatusLineSorted"], replay=sc, timeout=10000)
         inputs = r.pop("inputs")
         r.update({"family": fam, "lattice": n + 1, "scale": l, "stride": stride, "use_shortcuts": sc, "invariants": invs})
         if inputs:
             # the model's inputs, answered by the real code, judged by the contract (Layer P)
             src = os.path.join(mwd, "inputs.ndjson")
             trace = os.path.join(mwd, "trace.ndjson")
-            r["sessions_to_contract"] = model_sweep.inputs_as_sessions(inputs, src, fam)
+            r["sessions_to_contract"] = model_sweep.inputs_as_sessions(inputs, src, fam.replace("gen:", "gen/"))
             vlib.vh(["rerun", "--file", src, "--sid0", 1], trace)
             sessions = vlib.load_sessions(trace)
             res = vlib.validate_ops(trace, all_laws, "any", os.path.join(mwd, "contract"))
